@@ -702,7 +702,7 @@ impl Builder<'_> {
 }
 
 pub fn c15_gen_cfg(rng: &mut Rng, giant_ok: bool, clash_ok: bool) -> GenCfg {
-    if rng.chance(1, 50) && giant_ok {
+    if rng.chance(1, 20) && giant_ok {
         // a very large module (tens of kilobytes; on one line under layout shape 1)
         return GenCfg {
             max_modules: 2,
@@ -747,6 +747,7 @@ pub fn plan(seed: u64, prop: &str, run: u64, sem: Sem) -> Plan {
         sw.unsaved_closes = sw.unsaved_closes && sched.chance(1, 3);
     }
     let cfg = c15_gen_cfg(&mut wl, !semantic, sem != Sem::C18);
+    let giant = cfg.res_range.0 >= 50;
     let mut programs = vec![gen::generate(&mut wl, &cfg)];
     let layout = |wl: &mut Rng, sw: &Swarm| Layout {
         seed: wl.next_u64(),
@@ -892,6 +893,12 @@ pub fn plan(seed: u64, prop: &str, run: u64, sem: Sem) -> Plan {
         main_now: "main.oal".into(),
     };
     let mut reached = BTreeMap::new();
+    if giant {
+        // the server gets to look at the large module as it is on disk first
+        b.random_request();
+        b.events.push(Ev::Idle);
+        b.random_request();
+    }
     for (ti, tgt) in targets.iter().enumerate() {
         if b.full() {
             break;
@@ -938,8 +945,11 @@ pub fn plan(seed: u64, prop: &str, run: u64, sem: Sem) -> Plan {
                 continue;
             }
             if !b.open.contains_key(&p) {
+                // (a very large module is opened with another text than the file's half of the
+                // time: whatever the server derived from its disk copy must not survive that)
+                let direct = if giant { b.sched.chance(1, 2) } else { b.sched.chance(1, 6) };
                 let text = match b.disk.get(&p) {
-                    Some(t) if !b.sched.chance(1, 6) => t.clone(),
+                    Some(t) if !direct => t.clone(),
                     _ => want.clone(), // new file, or opened directly with the (unsaved) target text
                 };
                 b.open.insert(p.clone(), text.clone());
